@@ -66,7 +66,7 @@ def sc_coq(t):
     if k == 'pow':
         return "(%s ^ %d)" % (sc_coq(t[1]), t[2])
     if k == 'fn':
-        return "(%s %s)" % ({"sqrt": "sqrt", "abs": "Rabs", "sign": "sgn"}[t[1]], sc_coq(t[2]))
+        return "(%s %s)" % ({"sqrt": "sqrt", "abs": "Rabs", "sign": "sgn", "cos": "cos", "arccos": "acos"}[t[1]], sc_coq(t[2]))
     return "(%s %s %s)" % (sc_coq(t[1]), k, sc_coq(t[2]))
 
 
@@ -709,8 +709,10 @@ class Scalar:
                 return (k, self.ev(n.left), self.ev(n.right))
         if isinstance(n, ast.Call):
             f = ast.unparse(n.func)
-            if f in ("np.sqrt", "np.abs", "np.sign") and len(n.args) == 1:
+            if f in ("np.sqrt", "np.abs", "np.sign", "np.cos", "np.arccos") and len(n.args) == 1:
                 return ('fn', f[3:], self.ev(n.args[0]))
+            if f == "np.asarray" and len(n.args) == 1 and not n.keywords:
+                return self.ev(n.args[0])
         if isinstance(n, ast.Name):
             raise TranslateError("%s:%d: name `%s` is neither a quantity the translator knows nor an inlinable alias (a local assigned exactly "
                                  "once to a pure expression, none of whose inputs is modified afterwards)" % (self.fname, getattr(n, "lineno", 0), n.id))
@@ -887,6 +889,17 @@ class Mat3Expr:
         raise TranslateError("%s:%d: unsupported 3-D projector expression [%s]" % (self.fname, getattr(n, "lineno", 0), ast.unparse(n)[:100]))
 
 
+def inline_case_masks(node):
+    """copy of an expression with `[case1]` mask subscripts removed (per-point formula)."""
+    class T(ast.NodeTransformer):
+        def visit_Subscript(self, n):
+            self.generic_visit(n)
+            if _norm(ast.unparse(n.slice)) == "case1":
+                return n.value
+            return n
+    return T().visit(ast.parse(ast.unparse(node), mode="eval").body)
+
+
 def translate_eig3d(methods, fname):
     fn = methods["_Eigen_values_vectors_projectors"]
     use_aliases(fn)
@@ -955,6 +968,54 @@ def translate_eig3d(methods, fname):
         used = {n.id for n in ast.walk(b.value) if isinstance(n, ast.Name)}
         if not used <= ok:
             raise TranslateError("%s:%d: %s depends on %s (allowed: %s)" % (fname, b.lineno, tgt, sorted(used - ok), sorted(ok)))
+    # ---- Frobenius normalisation applied to M1 and M3 after the cases (M2 = I - (M1 + M3) afterwards) ----
+    nm_def = [x for x in fn.body if isinstance(x, ast.FunctionDef) and x.name == "normalize_matrix"]
+    if len(nm_def) != 1 or len(nm_def[0].body) != 1 or not isinstance(nm_def[0].body[0], ast.Return) \
+            or _norm(ast.unparse(nm_def[0].body[0].value)) != _norm("M / Norm(M, axis=(-2, -1))") or [a.arg for a in nm_def[0].args.args] != ["M"]:
+        raise TranslateError("%s: normalize_matrix(M) is no longer M / Norm(M, axis=(-2, -1))" % fname)
+    top = [st for st in body if isinstance(st, ast.Assign) and isinstance(st.targets[0], ast.Name)]
+    last = {}
+    for st in top:
+        last[st.targets[0].id] = st
+    for nm in ("M1", "M3"):
+        if nm not in last or _norm(ast.unparse(last[nm].value)) != _norm("normalize_matrix(%s)" % nm):
+            raise TranslateError("%s: the last assignment of %s in the 3-D branch is not normalize_matrix(%s)" % (fname, nm, nm))
+    if "M2" not in last or last["M2"].lineno < max(last["M1"].lineno, last["M3"].lineno):
+        raise TranslateError("%s: M2 = I - (M1 + M3) is not computed after the normalisation" % fname)
+    # ---- case 1: the trigonometric eigenvalues ----
+    clipped = False
+    for st in body:
+        if isinstance(st, ast.Assign) and ast.unparse(st.targets[0]) == "arg" and _vtxt(st.value) == _norm("np.clip(arg, -1, 1)"):
+            clipped = True
+    out["clip"] = clipped
+    out["theta"] = Scalar({"arg": ('s', 'arg')}, fname).ev(find_assign(body, "theta", fname).value)
+    tabv = {"I1": ('s', 'I1'), "sqrt_g_c1": ('s', 'sg'), "theta_c1": ('s', 'th'), "np.pi": ('s', 'PI'),
+            "(sqrt_g_e_pg * np.cos(2 * np.pi / 3 + theta))[case1]": ('*', ('s', 'sg'), ('fn', 'cos', ('+', ('/', ('*', ('c', Fraction(2)), ('s', 'PI')), ('c', Fraction(3))), ('s', 'th'))))}
+    for nm, want in (("theta_c1", "theta[case1]"), ("sqrt_g_c1", "sqrt_g[case1]")):
+        try:
+            a = find_assign(c1.body, nm, fname)
+        except TranslateError:
+            continue
+        if _vtxt(a.value) != _norm(want):
+            raise TranslateError("%s:%d: %s is not %s" % (fname, a.lineno, nm, want))
+    base3 = {}
+    for k in (1, 2, 3):
+        b0 = find_assign(body, "val%d_e_pg" % k, fname)
+        base3[k] = Scalar({"I1": ('s', 'I1'), "I1_e_pg": ('s', 'I1')}, fname).ev(b0.value)
+        inc = None
+        for st in c1.body:
+            if isinstance(st, ast.AugAssign) and isinstance(st.op, ast.Add) and _norm(ast.unparse(st.target)) == _norm("val%d_e_pg[case1]" % k):
+                if inc is not None:
+                    raise TranslateError("%s:%d: val%d_e_pg[case1] incremented twice" % (fname, st.lineno, k))
+                v = st.value
+                # drop a trailing [case1] mask on the whole increment
+                if isinstance(v, ast.Subscript) and _norm(ast.unparse(v.slice)) == "case1":
+                    v = v.value
+                inc = Scalar({"sqrt_g_c1": ('s', 'sg'), "sqrt_g_e_pg": ('s', 'sg'), "sqrt_g": ('s', 'sg'), "theta_c1": ('s', 'th'),
+                              "theta": ('s', 'th'), "np.pi": ('s', 'PI')}, fname).ev(inline_case_masks(v))
+        if inc is None:
+            raise TranslateError("%s: val%d_e_pg[case1] += ... not found" % (fname, k))
+        out["c1_val%d" % k] = ('+', base3[k], inc)
     for st in body:
         if isinstance(st, ast.Assign) and ast.unparse(st.targets[0]) == "tol_theta" and not isinstance(st.value, ast.Constant):
             raise TranslateError("%s:%d: tol_theta is not a constant" % (fname, st.lineno))
@@ -1690,6 +1751,12 @@ def emit_coq(res):
     w("   Lode argument arg = e3_argnum / g**(3/2); theta and the case masks depend on nothing else *)")
     w("Definition e3_g_neq_0 (g n : R) : Prop := %s %s %s." % (sc_coq(e["g_neq_0"][1]), e["g_neq_0"][0], sc_coq(e["g_neq_0"][2])))
     w("Definition e3_argnum (I1 I2 I3 : R) : R := %s." % sc_coq(e["argnum"]))
+    w("(* after the cases the source replaces M1, M3 by M / Norm(M) (Frobenius), then M2 = I - (M1 + M3): checked by template *)")
+    w("(* case 1: Lode angle theta from the (clipped) argument, and the three trigonometric eigenvalues; sg = sqrt g, th = theta *)")
+    w("Definition e3_clip (x : R) : R := %s." % ("Rmax (-1) (Rmin x 1)" if e["clip"] else "x"))
+    w("Definition e3_theta (arg : R) : R := %s." % sc_coq(e["theta"]))
+    for k in (1, 2, 3):
+        w("Definition e3c1_val%d (I1 sg th : R) : R := %s." % (k, sc_coq(e["c1_val%d" % k])))
     w("")
     s = res["sources"]
     for k in ("r_AT1", "r_AT2", "f_AT1", "f_AT2"):
